@@ -337,3 +337,5 @@ mut("c18g-removal-keeps-clock", "C18", AWF, "                state.data = None;\
 mut("c18g-update-skips-null-clock", "C18", AWF, "                let data = meta.data.clone().unwrap_or_else(|| NULL_STR.into());\n                (meta.clock, data)", "                let data = meta.data.clone().unwrap_or_else(|| NULL_STR.into());\n                (meta.clock.saturating_sub(1), data)", "C18.g")
 mut("c18g-update-includes-removed", "C18", AWF, "                if e.data.is_none() {\n                    None\n                } else {\n                    Some(*e.key())\n                }", "                Some(*e.key())", "C18.g")
 mut("c18g-benign-named-entry", "C18", AWF, "            res.insert(client_id, AwarenessUpdateEntry { clock, json });", "            let entry = AwarenessUpdateEntry { clock, json };\n            res.insert(client_id, entry);", "", kind="benign")
+mut("exclude-break-on-range-before-update", "C06", U, "                        if range.end <= clock_start {\n                            continue;\n                        }", "                        if range.end <= clock_start {\n                            break;\n                        }", "state-vector", also=["C08", "C01"])
+mut("exclude-benign-break-past-update", "C06", U, "                        if range.start >= clock_end {\n                            continue;\n                        }", "                        if range.start >= clock_end {\n                            break;\n                        }", "", kind="benign", also=["C08", "C01"])
